@@ -452,6 +452,19 @@ def check_group_key(ctx: Check, tree: Tree) -> None:
     that maps different projections to one value merges groups: amplitudes that belong to
     different terms of the incoherent sum are added coherently."""
     fn = tree.func("ampform.helicity.decay::group_by_spin_projection")
+    # itertools.groupby only merges ADJACENT items: on an input that is not sorted by the same key the
+    # items of one group arrive in several runs, and a dict built from the runs keeps only the last one
+    for gb in [n for n in walk_function(fn.node, nested=True) if isinstance(n, ast.Call) and unparse(n.func) in {"itertools.groupby", "groupby"}]:
+        keyf = next((unparse(k.value) for k in gb.keywords if k.arg == "key"), unparse(gb.args[1]) if len(gb.args) > 1 else None)
+        it = gb.args[0] if gb.args else None
+        grd = RD(fn.node)
+        srcs = [it] + [d.value for d in grd.closure(grd.uses(it)) if isinstance(d.value, ast.AST)] if it is not None else []
+        sorted_same = any(isinstance(e, ast.Call) and unparse(e.func) == "sorted" and any(k.arg == "key" and unparse(k.value) == keyf for k in e.keywords) for e in srcs)
+        ctx.verdict(sorted_same, "R-GROUPKEY", f"{fn.qual}::groupby-on-unsorted-input", tree.loc(gb),
+                    f"`{unparse(gb)[:70]}` runs over an input sorted by the same key",
+                    None if sorted_same else "transitions are ordered by topology first, so the same outer helicities recur once per topology: all but the last run of each key are dropped - whole topologies vanish from the coherent sum")
+        if not sorted_same:
+            return
     stores = [n for n in walk_function(fn.node) if isinstance(n, ast.Call) and isinstance(n.func, ast.Attribute) and n.func.attr == "append"
               and isinstance(n.func.value, ast.Subscript)]
     if len(stores) != 1:
